@@ -96,7 +96,11 @@ uint32_t IPSecAH::header_size() const {
 
 void IPSecAH::write_serialization(uint8_t* buffer, uint32_t total_sz) {
     if (inner_pdu()) {
-        next_header(Internals::pdu_flag_to_ip_type(inner_pdu()->pdu_type()));
+        // Keep the current next header if the payload is not one we know the type of
+        const Constants::IP::e flag = Internals::pdu_flag_to_ip_type(inner_pdu()->pdu_type());
+        if (static_cast<int>(flag) != 0xff) {
+            next_header(static_cast<uint8_t>(flag));
+        }
     }
     length(header_size() / sizeof(uint32_t) - 2);
     OutputMemoryStream output(buffer, total_sz);
